@@ -1,6 +1,11 @@
 import DcmVerif.Props.Source_classes
 import DcmVerif.Props.Source_simplify
 import DcmVerif.Props.Source_shapes
+import DcmVerif.Props.Source_dicts
+import DcmVerif.Props.Source_values
+import DcmVerif.Props.Source_insert
+import DcmVerif.Props.Source_content
+import DcmVerif.Props.Source_insertall
 import DcmVerif.Proofs.Key
 import DcmVerif.Props.C13_ext
 /-! Property theorems for C13. Statements only; proofs are by reference to `Proofs/`. -/
